@@ -197,6 +197,9 @@ def child_main(job_path):
         try:
             with cbuild.CProg(o, "gcc") as cp:
                 script = cp.op_exhaust(job["Lc"], reps_c, do_end=eof, digest=True, no_offsets=True) + cp.op_exhaust(max(job["Lc"] - 1, 1), reps_c, do_end=eof, digest=True, bytewise=True, no_offsets=True)
+                # ... and every string <= 2 over all 256 byte values: the emitted comparisons / range tests of every byte class member, not only of the representatives
+                # (the op encodes the number of bytes in one byte: 0..254 in one run, 255 next to the representatives in another)
+                script += cp.op_exhaust(2, list(range(255)), do_end=eof, digest=True, no_offsets=True) + cp.op_exhaust(2, [255] + [r for r in reps_c if r != 255], do_end=eof, digest=True, no_offsets=True)
                 recs, status = cp.run(script, timeout=120)
                 if status != "ok":
                     return "run:" + status
@@ -364,7 +367,8 @@ def run_child(item):
 
 def children_for(tier, seed, i, label, cover):
     """(PYTHONHASHSEED, what was compiled before the program's first compilation) per child interpreter; the first child is the reference"""
-    if label.startswith("SHADOW"):
+    if label.startswith("SHADOW") or label.startswith("feat-ranges") or label == "feat-word":
+        # (byte-class programs: the order in which a set of characters is iterated is a matter of the string hash seed)
         return [(h, "") for h in cover] + [(0, "all"), (0, "strict"), (0, "other")]
     if tier == "thorough":
         return [(h, "") for h in cover[:4]] + [(0, "all"), (0, "strict"), (0, "other")]
@@ -422,6 +426,8 @@ def run(tier, seed):
                 ck.violation("C20:child-verdict:%s" % sha(it["src"])[:10], "%s: verdict %s with %s but %s in the reference interpreter" % (it["label"], c["verdict"], who, v0), dict(rp, scenario=["fresh"]))
             elif c["table"] != ch[0]["table"]:
                 ck.violation("C20:child-behaviour:%s" % sha(it["src"])[:10], "%s: behaviour table (all strings <= 4) with %s differs from the reference interpreter's" % (it["label"], who), dict(rp, scenario=["fresh"]))
+            elif str(c["cdigest"]).startswith("run:"):
+                ck.violation("C20:c-run-failed:%s" % sha(it["src"])[:10], "%s: the generated C could not be run on all strings (%s) with %s, so it cannot be shown to behave like the reference interpreter's" % (it["label"], c["cdigest"], who), dict(rp, scenario=["fresh"]))
             elif c["cdigest"] != ch[0]["cdigest"] and c["reps"] == ch[0]["reps"] and "cbuild_failed" not in (c["cdigest"], ch[0]["cdigest"]):
                 ck.violation("C20:child-c-behaviour:%s" % sha(it["src"])[:10], "%s: the generated C run on all strings <= 4 behaves differently with %s than in the reference interpreter" % (it["label"], who), dict(rp, scenario=["fresh"]))
             elif c["ctext"] != ch[0]["ctext"]:
